@@ -253,10 +253,38 @@ def aggregate(model, R):
                 f'self._context._Objects.{red}(...)', src(arg.func) if isinstance(arg, ast.Call) else found_red)
         if ok_red:
             g = arg.args[0]
-            ok = (isinstance(g, (ast.GeneratorExp, ast.ListComp)) and len(g.generators) == 1 and not g.generators[0].ifs
-                  and name_is(g.generators[0].iter, p) and isinstance(g.generators[0].target, ast.Name)
-                  and chain(g.elt) == [g.generators[0].target.id, '_extent'])
-            R.check(ok, 'BOUNDS', func, g, f'Lattice.{name}: the extents of exactly the given concepts', f'(c._extent for c in {p})', src(g))
+            shaped = (isinstance(g, (ast.GeneratorExp, ast.ListComp)) and len(g.generators) == 1 and isinstance(g.generators[0].target, ast.Name)
+                      and chain(g.elt) == [g.generators[0].target.id, '_extent'])
+            if not shaped:
+                R.unknown('BOUNDS', func, g, f'Lattice.{name}: the extents of exactly the given concepts', src(g)[:100])
+            else:
+                it = g.generators[0].iter
+                from ..astutil import reaching_value
+                for _ in range(3):
+                    if isinstance(it, ast.Name) and not name_is(it, p):
+                        v_ = reaching_value(func, it.id, 10 ** 9) or env.single(it.id)
+                        if v_ is None:
+                            break
+                        it = v_
+                    elif isinstance(it, ast.Call) and isinstance(it.func, ast.Name) and it.func.id in ('list', 'tuple', 'set', 'frozenset') and len(it.args) == 1:
+                        it = it.args[0]
+                    else:
+                        break
+                if g.generators[0].ifs:
+                    R.unknown('BOUNDS', func, g, f'Lattice.{name}: the extents of exactly the given concepts', 'filtered: ' + src(g.generators[0].ifs[0]))
+                elif name_is(it, p):
+                    R.ok('BOUNDS', func, g, f'Lattice.{name}: the extents of exactly the given concepts')
+                elif isinstance(it, ast.Call) and (chain(it.func) or [''])[-1] == 'maximal' and it.args and name_is(it.args[0], p):
+                    comp = next((k.value for k in it.keywords if k.arg == 'comparison'), it.args[1] if len(it.args) > 1 else None)
+                    cname = (chain(comp) or [''])[-1] if comp is not None else 'lt'
+                    # join needs the concepts with the largest extents, meet those with the smallest: dropping a concept is only
+                    # harmless when another kept one is above (join) resp. below (meet) it
+                    keep_ok = {'join': ('properly_implies', '__lt__', 'lt'), 'meet': ('properly_subsumes', '__gt__', 'gt')}[name]
+                    R.decided(cname in keep_ok, 'BOUNDS', func, it, f'Lattice.{name}: arguments may only be dropped when another one dominates them',
+                              f'all of {p} (or tools.maximal(..., comparison=Concept.{keep_ok[0]}))', src(it)[:120],
+                              extra={'consequence': f'{name}([x, y]) with comparable x, y ignores the one that determines the result'})
+                else:
+                    R.unknown('BOUNDS', func, g, f'Lattice.{name}: the extents of exactly the given concepts', src(it)[:100])
         if closure is None:
             if name == 'join':
                 R.bad('BOUNDS', func, v.slice, 'Lattice.join: union of extents is closed', f'{red}(...).double()', 'no closure applied')
